@@ -164,7 +164,15 @@ class IntrospectDriver:
 
     def do_ParseXml(self, ids, replace):
         ifaces = [self.objs[k - 1][0] for k in ids]
-        cls = type('Exp', (objects.DBusObject,), {'dbusInterfaces': ifaces})
+        self.nparse = getattr(self, 'nparse', 0) + 1
+        if len(ifaces) >= 2 and self.nparse % 2 == 0:
+            # the interfaces are spread over a class and its base class, and an object of the base class was looked at
+            # first: the derived object still exports all of them
+            base = type('Base', (objects.DBusObject,), {'dbusInterfaces': ifaces[-1:]})
+            introspection.generateIntrospectionXML('/b', {'/b': base('/b')})
+            cls = type('Exp', (base,), {'dbusInterfaces': ifaces[:-1]})
+        else:
+            cls = type('Exp', (objects.DBusObject,), {'dbusInterfaces': ifaces})
         o = cls('/p')
         xml = introspection.generateIntrospectionXML('/p', {'/p': o})
         res = introspection.getInterfacesFromXML(xml, replace)
